@@ -79,6 +79,10 @@ OPTION_DEVS = {
     "iwc_pct": lambda s: {**s, "iwc": S.iwc_for(s["soil"], "Pct30")},
     "iwc_depth": lambda s: {**s, "iwc": S.iwc_for(s["soil"], "Depth")},
     "iwc_num": lambda s: {**s, "iwc": {"wc_type": "Num", "method": "Depth", "depth_layer": [0.1, 1.0], "value": [0.2, 0.3]}},
+    # depth points at / below the bottom of the simulated profile (a probe deeper than the roots), every type
+    "iwc_pct_deep": lambda s: {**s, "iwc": {"wc_type": "Pct", "method": "Depth", "depth_layer": [0.3, 1.2, 3.5], "value": [40.0, 60.0, 90.0]}},
+    "iwc_prop_deep": lambda s: {**s, "iwc": {"wc_type": "Prop", "method": "Depth", "depth_layer": [0.3, 4.0], "value": ["WP", "FC"]}},
+    "iwc_num_deep": lambda s: {**s, "iwc": {"wc_type": "Num", "method": "Depth", "depth_layer": [0.0, 1.2, 2.4, 5.0], "value": [0.2, 0.25, 0.3, 0.3]}},
     "iwc_default": lambda s: {**s, "iwc": None} if S.soil_nlayers(s["soil"]) == 1 else None,
     "co2_const0": lambda s: {**s, "co2": {"constant_conc": True, "current_concentration": 0.0}},
     "co2_const800": lambda s: {**s, "co2": {"constant_conc": True, "current_concentration": 800.0}},
